@@ -254,6 +254,7 @@ class PolarityCNFizer(CNFizer):
             assert formula.is_str_op() or \
                    formula.is_symbol() or \
                    formula.is_function_application() or \
+                   formula.is_select() or \
                    formula.is_bool_constant() or \
                    formula.is_theory_relation(), str(formula)
             return []
